@@ -6,6 +6,7 @@ import PcVerif.Model.Scc.Writer
 import PcVerif.Lemmas.SccRowLemmas
 import PcVerif.Lemmas.SccFileLemmas
 import PcVerif.Lemmas.PopOnStore
+import PcVerif.Lemmas.PopOnTimes
 namespace PcVerif.Props.C17
 open PcVerif PcVerif.Scc PcVerif.SccW
 
@@ -138,6 +139,38 @@ theorem stored_caption_is_rows (S : Stash) (c : Creator) (a b : Rat) (p : Pos) (
 theorem written_file_restored (caps : List (List Str × Rat × Rat)) (hg : ∀ c ∈ caps, GoodLines c.1) (off : Rat) :
     (run (write caps) off).S.stash.map view = caps.map (fun c => capView c.1) :=
   SccW.written_file_restored caps hg off
+
+/-- **C17 (the time code the writer prints, as the reader counts it).** for every instant `us ≥ 0` the reader computes from
+    the time code the writer prints, for the `k`-th word of that line, exactly `⌊us in frames⌋ + k` frames of 1001/30 ms: hours,
+    minutes, seconds and frames of `_format_timestamp` add up without a lost carry, and the reader's arithmetic inverts it -/
+theorem written_stamp_instant (us : Rat) (hus : 0 ≤ us) (k : Nat) :
+    timeOf (String.ofList (formatTimestamp us)) k 0
+      = some ((((us / 1000000 * (1000 / 1001) * 30).floor.toNat + k : Nat) : Rat) * SccW.frameUs) :=
+  SccW.written_stamp_instant us hus k
+
+/-- **C17 (time codes are non-negative and keep the order of the instants).** the instant the reader attaches to a line stamped
+    for `u` (`lineInstant`, by `written_stamp_instant` with no words before) is never negative, never after `u`, less than one
+    frame before it, and `u ≤ v` gives `lineInstant u ≤ lineInstant v`: the written time codes are non-decreasing whenever the
+    instants they are printed for are -/
+theorem written_stamps_monotone (u v : Rat) (hu : 0 ≤ u) (h : u ≤ v) :
+    timeOf (String.ofList (formatTimestamp u)) 0 0 = some (lineInstant u) ∧
+    lineInstant u ≤ lineInstant v ∧ 0 ≤ lineInstant u ∧ lineInstant u ≤ u ∧ u < lineInstant u + SccW.frameUs :=
+  ⟨lineInstant_is u hu, lineInstant_monotone u v hu h⟩
+
+/-- **C17 (write, then read: every caption at the instant it was sent for).** as `written_file_restored`, with the start
+    times: the caption re-read for an input caption starts at `shownAt` — the instant of its End-Of-Caption word, which is
+    word number `words + 6` of a line stamped with the sending instant `start − (words + 8)` frames rounded down to a frame -/
+theorem written_file_times (caps : List (List Str × Rat × Rat)) (hg : ∀ c ∈ caps, GoodLines c.1) :
+    (run (write caps) 0).S.stash.map view3 = caps.map (fun c => capView3 (c.1, shownAt c.1 c.2.1)) :=
+  SccW.written_file_times caps hg
+
+/-- **C17 (visible within three frames of its start).** a caption whose start leaves room for its transmission
+    (`start ≥ (words + 8)` frames) is shown between two and three frames BEFORE its start: never late, never three frames
+    early — for every caption, every start, every number of words -/
+theorem shown_within_three_frames (lines : List (List Char)) (start : Rat)
+    (h : (((rowsWords (16 - lines.length) lines).length : Rat) + 8) * SccW.frameUs ≤ start) :
+    2 * SccW.frameUs ≤ start - shownAt lines start ∧ start - shownAt lines start < 3 * SccW.frameUs :=
+  SccW.shown_within_three_frames lines start h
 
 /-- non-vacuity: a two-row caption of ordinary characters meets the hypotheses of `written_file_restored` -/
 example : GoodLines ["Hello,".toList, "World 42!".toList] := by
